@@ -710,7 +710,10 @@ class Runtime:
         return 0, None, []
 
     def seen(self):
-        v = getattr(self.model, self.scn.state_field, None)
+        m = self.model
+        if self.scn.model_shape == "default" and getattr(self.sm, "model", None) is not None:
+            m = self.sm.model       # (the library's own Model object, created inside the constructor)
+        v = getattr(m, self.scn.state_field, None)
         return "-" if v is None else rp(v)
 
     def state_idx(self, st):
@@ -1160,8 +1163,13 @@ class Session:
             kw["state_field"] = scn.state_field
         self.ctor_list = [self.listeners[p] for p in scn.listeners_ctor]
         self.ctor_len = len(self.ctor_list)
-        self.cls(rt.model, rtc=scn.rtc, allow_event_without_transition=scn.allow,
-                 listeners=self.ctor_list, **kw)
+        if scn.model_shape == "default":
+            # no model given: the library's own `Model()` holds the state (and whatever the application hangs on it)
+            self.cls(rtc=scn.rtc, allow_event_without_transition=scn.allow, listeners=self.ctor_list, **kw)
+            rt.model = rt.sm.model
+        else:
+            self.cls(rt.model, rtc=scn.rtc, allow_event_without_transition=scn.allow,
+                     listeners=self.ctor_list, **kw)
         rt.bound = type("Bound", (), {})()
         # a first target that already has an attribute named like an event: skipped (with a warning) for that
         # event only; every event must still be bound onto the second target
@@ -1474,6 +1482,8 @@ def impl_obs(scn: Scn, impl_lines):
 
 def model_obs(scn: Scn, raw_lines):
     cbmap = {c.id: c for c in scn.cbs}
+    if scn.model_shape == "default":      # (writes of the library's default model cannot be observed)
+        raw_lines = [l for l in raw_lines if not l.startswith("T ")]
     silent = {str(c.id) for c in scn.cbs if c.style == "attr"}
     if silent:      # reading a plain attribute runs no user code: nothing of it is observed
         raw_lines = [l for l in raw_lines if not (l[:2] in ("B ", "S ", "E ") and l.split(" ")[3] in silent)]
